@@ -1,6 +1,6 @@
 (* Lemmas about Model/Membership.v (C07, membership rules). *)
 From DB Require Import Base.Bytes Gen.GenC07 Model.Membership.
-From Coq Require Import ZifyN ZifyNat ZifyBool.
+From Coq Require Import ZifyN ZifyNat ZifyBool Permutation.
 Open Scope N_scope.
 
 (* ------------------------------------------------------------------ *)
@@ -1022,6 +1022,169 @@ Section WithNorm.
     NoDup (applied_ccids reqs (snd (run norm true m reqs))).
   Proof. intros H1 H2. apply (one_winner_aux reqs m lo H1 H2). Qed.
 
+
+  (* ---------------------------------------------------------------- *)
+  (* the outcome depends on the CONTENT of the maps only                *)
+  (* Two replicas hold the same abstract membership in Go maps whose internal
+     layout / iteration order differ (and differ from run to run); in the model:
+     association lists with the same lookups but any order.                *)
+
+  Definition amap_equiv (a b : amap) : Prop := forall k, alookup k a = alookup k b.
+  Definition mequiv (m1 m2 : membership) : Prop :=
+    m_ccid m1 = m_ccid m2 /\
+    amap_equiv (m_addresses m1) (m_addresses m2) /\
+    amap_equiv (m_nonvotings m1) (m_nonvotings m2) /\
+    amap_equiv (m_witnesses m1) (m_witnesses m2) /\
+    (forall k, rmem k (m_removed m1) = rmem k (m_removed m2)).
+
+  Lemma mequiv_refl m : mequiv m m.
+  Proof. repeat split. Qed.
+
+  Lemma amem_equiv a b k : amap_equiv a b -> amem k a = amem k b.
+  Proof. unfold amem. intros H. rewrite H. reflexivity. Qed.
+
+  Lemma In_alookup_nodup k v m : nodup_keys m -> In (k, v) m -> alookup k m = Some v.
+  Proof.
+    unfold nodup_keys, keys. induction m as [|[k0 v0] r IH]; cbn; [tauto|].
+    intros Hnd [H|H].
+    - inversion H; subst. rewrite N.eqb_refl. reflexivity.
+    - inversion Hnd as [|? ? Hnotin Hnd']; subst.
+      destruct (N.eqb_spec k0 k) as [->|]; [|auto].
+      exfalso. apply Hnotin. change k with (fst (k, v)). apply in_map. exact H.
+  Qed.
+
+  Lemma addr_in_use_equiv_imp a m1 m2 :
+    nodup_keys m1 -> amap_equiv m1 m2 -> addr_in_use norm a m1 = true -> addr_in_use norm a m2 = true.
+  Proof.
+    intros Hnd He. unfold addr_in_use. rewrite !existsb_exists.
+    intros ([k v] & Hin & Ha). exists (k, v). split; [|exact Ha].
+    apply alookup_In. rewrite <- He. apply In_alookup_nodup; assumption.
+  Qed.
+
+  Lemma addr_in_use_equiv a m1 m2 :
+    nodup_keys m1 -> nodup_keys m2 -> amap_equiv m1 m2 ->
+    addr_in_use norm a m1 = addr_in_use norm a m2.
+  Proof.
+    intros H1 H2 He.
+    destruct (addr_in_use norm a m1) eqn:E1, (addr_in_use norm a m2) eqn:E2; try reflexivity.
+    - rewrite (addr_in_use_equiv_imp a m1 m2 H1 He E1) in E2. discriminate.
+    - assert (He' : amap_equiv m2 m1) by (intros k; symmetry; apply He).
+      rewrite (addr_in_use_equiv_imp a m2 m1 H2 He' E2) in E1. discriminate.
+  Qed.
+
+  Lemma alen_equiv m1 m2 :
+    nodup_keys m1 -> nodup_keys m2 -> amap_equiv m1 m2 -> alen m1 = alen m2.
+  Proof.
+    intros H1 H2 He. unfold alen, nlen. f_equal.
+    rewrite <- (map_length fst m1), <- (map_length fst m2).
+    apply Permutation_length. apply NoDup_Permutation; [exact H1|exact H2|].
+    intros x. fold (keys m1) (keys m2). rewrite <- !amem_keys, (amem_equiv _ _ x He). reflexivity.
+  Qed.
+
+  Lemma ainsert_equiv k v a b : amap_equiv a b -> amap_equiv (ainsert k v a) (ainsert k v b).
+  Proof. intros H k'. rewrite !alookup_ainsert, H. reflexivity. Qed.
+  Lemma adelete_equiv k a b : amap_equiv a b -> amap_equiv (adelete k a) (adelete k b).
+  Proof. intros H k'. rewrite !alookup_adelete, H. reflexivity. Qed.
+
+  Lemma accepted_equiv ordered m1 m2 c :
+    nodup_inv m1 -> nodup_inv m2 -> mequiv m1 m2 ->
+    accepted norm ordered m1 c = accepted norm ordered m2 c /\
+    reject_reason norm ordered m1 c = reject_reason norm ordered m2 c.
+  Proof.
+    intros (NA1 & NN1 & NW1) (NA2 & NN2 & NW2) (Hc & HA & HN & HW & HR).
+    assert (P1 : is_up_to_date ordered m1 c = is_up_to_date ordered m2 c)
+      by (unfold is_up_to_date; rewrite Hc; reflexivity).
+    assert (P2 : is_add_removed_node m1 c = is_add_removed_node m2 c)
+      by (unfold is_add_removed_node; rewrite HR; reflexivity).
+    assert (Pp : is_promote_non_voting norm m1 c = is_promote_non_voting norm m2 c)
+      by (unfold is_promote_non_voting; rewrite HN; reflexivity).
+    assert (P3 : is_add_existing_member norm m1 c = is_add_existing_member norm m2 c).
+    { unfold is_add_existing_member.
+      rewrite Pp, (amem_equiv _ _ _ HA), (amem_equiv _ _ _ HN), (amem_equiv _ _ _ HW),
+        (addr_in_use_equiv _ _ _ NA1 NA2 HA), (addr_in_use_equiv _ _ _ NN1 NN2 HN),
+        (addr_in_use_equiv _ _ _ NW1 NW2 HW). reflexivity. }
+    assert (P4 : is_add_node_as_non_voting m1 c = is_add_node_as_non_voting m2 c)
+      by (unfold is_add_node_as_non_voting; rewrite (amem_equiv _ _ _ HA); reflexivity).
+    assert (P5 : is_add_node_as_witness m1 c = is_add_node_as_witness m2 c)
+      by (unfold is_add_node_as_witness; rewrite (amem_equiv _ _ _ HA); reflexivity).
+    assert (P6 : is_add_witness_as_node m1 c = is_add_witness_as_node m2 c)
+      by (unfold is_add_witness_as_node; rewrite (amem_equiv _ _ _ HW); reflexivity).
+    assert (P7 : is_add_witness_as_non_voting m1 c = is_add_witness_as_non_voting m2 c)
+      by (unfold is_add_witness_as_non_voting; rewrite (amem_equiv _ _ _ HW); reflexivity).
+    assert (P8 : is_add_non_voting_as_witness m1 c = is_add_non_voting_as_witness m2 c)
+      by (unfold is_add_non_voting_as_witness; rewrite (amem_equiv _ _ _ HN); reflexivity).
+    assert (P9 : is_delete_only_node m1 c = is_delete_only_node m2 c)
+      by (unfold is_delete_only_node; rewrite (alen_equiv _ _ NA1 NA2 HA), (amem_equiv _ _ _ HA); reflexivity).
+    assert (P10 : is_invalid_non_voting_promotion norm m1 c = is_invalid_non_voting_promotion norm m2 c)
+      by (unfold is_invalid_non_voting_promotion; rewrite HN; reflexivity).
+    unfold accepted, reject_reason.
+    rewrite P1, P2, P3, P4, P5, P6, P7, P8, P9, P10. split; reflexivity.
+  Qed.
+
+  Definition apply_result_equiv (r1 r2 : apply_result) : Prop :=
+    match r1, r2 with
+    | AOk a, AOk b => mequiv a b
+    | APanic t1, APanic t2 => t1 = t2
+    | _, _ => False
+    end.
+
+  Lemma apply_equiv m1 m2 c i :
+    mequiv m1 m2 -> apply_result_equiv (apply_cc m1 c i) (apply_cc m2 c i).
+  Proof.
+    intros (Hc & HA & HN & HW & HR). unfold apply_cc.
+    rewrite !(amem_equiv _ _ _ HA), !(amem_equiv _ _ _ HN), !(amem_equiv _ _ _ HW).
+    destruct (cc_type c =? cc_add_node)%Z.
+    { destruct (amem (cc_replica c) (m_witnesses m2)); cbn; [reflexivity|].
+      repeat split; cbn; auto using ainsert_equiv, adelete_equiv. }
+    destruct (cc_type c =? cc_add_non_voting)%Z.
+    { destruct (amem (cc_replica c) (m_addresses m2)); cbn; [reflexivity|].
+      repeat split; cbn; auto using ainsert_equiv, adelete_equiv. }
+    destruct (cc_type c =? cc_add_witness)%Z.
+    { destruct (amem (cc_replica c) (m_addresses m2)); cbn; [reflexivity|].
+      destruct (amem (cc_replica c) (m_nonvotings m2)); cbn; [reflexivity|].
+      repeat split; cbn; auto using ainsert_equiv, adelete_equiv. }
+    destruct (cc_type c =? cc_remove_node)%Z; cbn [apply_result_equiv]; [|reflexivity].
+    unfold mequiv. cbn [m_ccid m_addresses m_nonvotings m_witnesses m_removed].
+    split; [reflexivity|]. split; [apply adelete_equiv; exact HA|].
+    split; [apply adelete_equiv; exact HN|]. split; [apply adelete_equiv; exact HW|].
+    intros k. rewrite !rmem_radd, HR. reflexivity.
+  Qed.
+
+  Lemma step_equiv ordered m1 m2 r :
+    nodup_inv m1 -> nodup_inv m2 -> mequiv m1 m2 ->
+    snd (step norm ordered m1 r) = snd (step norm ordered m2 r) /\
+    mequiv (fst (step norm ordered m1 r)) (fst (step norm ordered m2 r)).
+  Proof.
+    intros N1 N2 He. unfold step, handle.
+    destruct (accepted_equiv ordered m1 m2 (fst r) N1 N2 He) as [-> ->].
+    destruct (accepted norm ordered m2 (fst r)).
+    - pose proof (apply_equiv m1 m2 (fst r) (snd r) He) as Ha.
+      destruct (apply_cc m1 (fst r) (snd r)), (apply_cc m2 (fst r) (snd r)); cbn in *;
+        try contradiction; auto.
+    - destruct (reject_reason norm ordered m2 (fst r)); cbn; auto.
+  Qed.
+
+  Lemma run_equiv ordered reqs : forall m1 m2,
+    nodup_inv m1 -> nodup_inv m2 -> mequiv m1 m2 ->
+    snd (run norm ordered m1 reqs) = snd (run norm ordered m2 reqs) /\
+    mequiv (fst (run norm ordered m1 reqs)) (fst (run norm ordered m2 reqs)).
+  Proof.
+    induction reqs as [|r rest IH]; intros m1 m2 N1 N2 He; cbn [run].
+    - cbn. auto.
+    - destruct (step_equiv ordered m1 m2 r N1 N2 He) as [Hv Hm].
+      pose proof (step_invariant nodup_inv ordered nodup_shape m1 r N1) as N1'.
+      pose proof (step_invariant nodup_inv ordered nodup_shape m2 r N2) as N2'.
+      destruct (step norm ordered m1 r) as [m1' v1], (step norm ordered m2 r) as [m2' v2].
+      cbn [fst snd] in *. subst v2.
+      destruct v1.
+      + destruct (IH m1' m2' N1' N2' Hm) as [IHv IHm].
+        destruct (run norm ordered m1' rest) as [a1 w1], (run norm ordered m2' rest) as [a2 w2].
+        cbn [fst snd] in *. split; [congruence|exact IHm].
+      + destruct (IH m1' m2' N1' N2' Hm) as [IHv IHm].
+        destruct (run norm ordered m1' rest) as [a1 w1], (run norm ordered m2' rest) as [a2 w2].
+        cbn [fst snd] in *. split; [congruence|exact IHm].
+      + cbn [fst snd]. split; [reflexivity|exact Hm].
+  Qed.
 End WithNorm.
 
 (* ------------------------------------------------------------------ *)
